@@ -484,7 +484,7 @@ msadpcm_seek	(SF_PRIVATE *psf, int mode, sf_count_t offset)
 		return 0 ;
 		} ;
 
-	if (offset < 0 || offset > pms->blocks * pms->samplesperblock)
+	if (offset < 0 || offset > (sf_count_t) pms->blocks * pms->samplesperblock)
 	{	psf->error = SFE_BAD_SEEK ;
 		return	PSF_SEEK_ERROR ;
 		} ;
@@ -493,7 +493,7 @@ msadpcm_seek	(SF_PRIVATE *psf, int mode, sf_count_t offset)
 	newsample	= offset % pms->samplesperblock ;
 
 	if (mode == SFM_READ)
-	{	psf_fseek (psf, psf->dataoffset + newblock * pms->blocksize, SEEK_SET) ;
+	{	psf_fseek (psf, psf->dataoffset + (sf_count_t) newblock * pms->blocksize, SEEK_SET) ;
 		pms->blockcount = newblock ;
 		msadpcm_decode_block (psf, pms) ;
 		pms->samplecount = newsample ;
@@ -504,7 +504,7 @@ msadpcm_seek	(SF_PRIVATE *psf, int mode, sf_count_t offset)
 		return	PSF_SEEK_ERROR ;
 		} ;
 
-	return newblock * pms->samplesperblock + newsample ;
+	return (sf_count_t) newblock * pms->samplesperblock + newsample ;
 } /* msadpcm_seek */
 
 /*==========================================================================================
